@@ -96,20 +96,44 @@ pub fn check(tape: &[u32]) -> CheckResult {
         entries[b].rgba[..3].copy_from_slice(&src[..3]);
     }
     let mut s = Sprite::empty(1, 1, Fmt::Rgba);
-    s.palette = Some(NewPalette { first, entries: entries.clone() });
+    // a quarter of the palettes come from an old-style palette chunk of 1-3 packets; packets that follow each other
+    // without a skip overwrite the same indices (the palette the mapper is given is whatever the library decoded)
+    let legacy = t.chance(1, 4);
+    if legacy {
+        let mut packets = vec![];
+        let mut rest: &[PalEntry] = &entries[..entries.len().min(600)];
+        let np = 1 + t.below(3) as usize;
+        for k in 0..np {
+            if rest.is_empty() {
+                break;
+            }
+            let take = if k + 1 == np { rest.len().min(255) } else { (1 + t.below(rest.len().min(255) as u32) as usize).min(rest.len()) };
+            let skip = if k == 0 { first.min(255) as u8 } else { t.pick(&[0u8, 0, 1, 3]) };
+            packets.push(LegacyPacket { skip, colors: rest[..take].iter().map(|e| [e.rgba[0], e.rgba[1], e.rgba[2]]).collect() });
+            rest = &rest[take..];
+        }
+        s.legacy = Some(LegacyPalette { kind: 4, packets });
+    } else {
+        s.palette = Some(NewPalette { first, entries: entries.clone() });
+    }
     let enc = encode(&s, &Plan::plain());
     let f = AsepriteFile::read(&enc.bytes[..]).map_err(|e| Failure::new("load-error", format!("palette file failed to load: {}", e)))?;
     let pal = f.palette().ok_or_else(|| Failure::new("load-error", "no palette"))?;
     let failure = t.u8_biased();
     let transparent = if t.chance(1, 2) { Some(t.u8_biased()) } else { None };
     let mapper = PaletteMapper::new(pal, MappingOptions { failure, transparent });
-    let colors: Vec<[u8; 3]> = entries.iter().map(|e| [e.rgba[0], e.rgba[1], e.rgba[2]]).collect();
+    // the palette as the library reports it, entry by entry (C11 decides whether that is what the file says)
+    let by_id: Vec<(u32, [u8; 3])> = (0..first + n as u32 + 800).filter_map(|id| pal.color(id).map(|e| (id, [e.red(), e.green(), e.blue()]))).collect();
+    if by_id.len() != pal.num_colors() as usize && !legacy {
+        return Err(Failure::new("palette-enumeration", format!("palette reports {} colours but color(id) is Some for {} ids below {}", pal.num_colors(), by_id.len(), first + n as u32 + 800)));
+    }
+    let colors: Vec<[u8; 3]> = by_id.iter().map(|(_, c)| *c).collect();
     let occurrences = |rgb: [u8; 3]| -> (Vec<u32>, Vec<u32>) {
         let mut lo = vec![];
         let mut hi = vec![];
-        for (i, c) in colors.iter().enumerate() {
+        for (id, c) in by_id.iter() {
             if *c == rgb {
-                let id = first + i as u32;
+                let id = *id;
                 if id < 256 {
                     lo.push(id)
                 } else {
@@ -168,8 +192,8 @@ pub fn check(tape: &[u32]) -> CheckResult {
         let failure2 = failure.wrapping_add(1 + t.below(200) as u8);
         let transparent2 = if transparent.is_some() { None } else { Some(t.u8_biased()) };
         let mapper2 = PaletteMapper::new(pal, MappingOptions { failure: failure2, transparent: transparent2 });
-        for (i, c) in colors.iter().enumerate().take(400) {
-            let id = first + i as u32;
+        for (id, c) in by_id.iter().take(400) {
+            let id = *id;
             let got = mapper2.lookup(c[0], c[1], c[2], 255);
             let (lo, hi) = occurrences(*c);
             let ok = if lo.is_empty() { got == failure2 } else if hi.is_empty() { lo.contains(&(got as u32)) } else { lo.contains(&(got as u32)) || got == failure2 };
